@@ -16,6 +16,19 @@ def hasStop (e : List Eff) : Bool := e.any fun x => x == .stopActor
 theorem C14_cex_msg_oob : hasPanic (step Cfg.pinned executingSt (.mpcMsg 7)).2 = true := by decide
 /-- … and so does *any* MPC message before `schedule` (the sender vector is still empty). -/
 theorem C14_cex_msg_before_schedule : hasPanic (step Cfg.pinned {} (.mpcMsg 0)).2 = true := by decide
+/-- a follower that has been validated and waits for one constant (of party 0) -/
+def waitingConstsSt : St := { kind := .sendingConstsCompleted, pol := some ⟨1, 0, 2, 42, true, true, false, 1⟩, chanLen := 2, chanGen := 1 }
+/-- C14-d: on the tree as it was a constants request from a party that does not exist (index 9) is ANSWERED Ok, stored, and — the count of stored
+    entries now equals the number the program needs — starts the run without the real constant. -/
+theorem C14_cex_stray_consts :
+    let r := step Cfg.pinned waitingConstsSt (.consts 9 true)
+    r.2 = [.reply "consts" true "", .selfSend "Run"] ∧ r.1.kind = .running ∧ r.1.consts = [9] := by decide
+/-- … now it is refused and nothing changes. -/
+theorem C14_stray_consts_refused :
+    let r := step Cfg.current waitingConstsSt (.consts 9 true)
+    let r' := step Cfg.current waitingConstsSt (.consts 1 true)      -- the party's own index is no valid sender either
+    r.2 = [.reply "consts" false "UnknownSender"] ∧ r.1.kind = .sendingConstsCompleted ∧ r.1.consts = []
+    ∧ r'.2 = [.reply "consts" false "UnknownSender"] ∧ r'.1.kind = .sendingConstsCompleted ∧ r'.1.consts = [] := by decide
 /-- C14-b: a duplicate schedule is answered with an error, but the live endpoints have already been replaced. -/
 theorem C14_cex_dup_schedule :
     let r := step Cfg.pinned executingSt (.schedule followerPol)
